@@ -80,6 +80,7 @@ def run_check(ctx, mod):
     ctx.discharged = len(theorems) if (ok and not bad_ax and not forb) else 0
     ctx.extra['coq_wall_s'] = round(time.time() - t, 1)
     ctx.extra['theorems'] = theorems
+    ctx.extra['print_assumptions'] = {name: (axs or ['Closed under the global context']) for name, axs in assumptions}
     # 4. build the implementation from /repo's working tree
     scratch = None
     try:
